@@ -353,7 +353,44 @@ def named_range_contains(run, rule, vals):
     run.require(n >= 2, "C04: NamedRange.__contains__ has no two outcomes")
 
 
+def v6_union(run, roles, rule="V6"):
+    """the value error of the union walker (a selector that selects no member): it carries the selector itself, declares the
+    selector's own type and points at the union's path - on every path that raises it (path summaries)"""
+    from .. import paths
+    fn = roles.walkers.get("process_tpmu")
+    if fn is None:
+        raise AnalysisError("C04: union walker not found")
+    mod = roles.mod
+    params = [a.arg for a in fn.args.args]
+    if len(params) < 3:
+        raise AnalysisError("C04: union walker no longer takes (tpm_type, path, selector, ...)")
+    pth, sel = params[1], params[2]
+    n = 0
+    for p in paths.summarise(mod, fn):
+        v = p.value
+        if not (p.end == "raise" and isinstance(v, ast.Call) and call_name(v) == VERR):
+            continue
+        n += 1
+        val = kwarg(v, "value") or (v.args[1] if len(v.args) > 1 else None)
+        run.ob(rule, val is not None and paths.text(val) == sel, "union walker: the error carries the selector value",
+               f"the ValueConstraintViolatedError of the union walker carries `{paths.text(val) if val is not None else None}` as its value, not "
+               f"the selector `{sel}` that selected no member (the error reports another object - its text form / comparison with the "
+               "allowed set then fail or mislead)", module=mod, node=p.node or fn, func=fn.name, construct=VERR + ".value [union selector]")
+        cons = kwarg(v, "constraint") or (v.args[0] if v.args else None)
+        if isinstance(cons, ast.Call) and call_name(cons) == "ValueConstraint":
+            tt, cp = kwarg(cons, "tpm_type"), kwarg(cons, "constraint_path")
+            run.ob(rule, tt is not None and paths.text(tt) == f"type({sel})", "union walker: declared type is the selector's type",
+                   f"tpm_type is `{paths.text(tt) if tt is not None else None}`", module=mod, node=p.node or fn, func=fn.name,
+                   construct="ValueConstraint.tpm_type [union selector]")
+            run.ob(rule, cp is not None and paths.text(cp) == pth, "union walker: the error points at the union's path",
+                   f"constraint_path is `{paths.text(cp) if cp is not None else None}`", module=mod, node=p.node or fn, func=fn.name,
+                   construct="ValueConstraint.constraint_path [union selector]")
+    if not n:
+        run.info(f"{rule}: no path of the union walker raises a value error itself (delegated to a helper?); its details are not judged here")
+
+
 def v6(run, project, roles, L):
+    v6_union(run, roles)
     fn = roles.walkers.get("process_command")
     if fn is None:
         raise AnalysisError("C04: command walker not found")
